@@ -112,7 +112,8 @@ pub fn parse_inline_amount(s: &str) -> Option<Multi> {
         let mut it = term.trim().splitn(2, ' ');
         let v = it.next()?;
         let c = it.next()?.trim();
-        let d: rust_decimal::Decimal = v.parse().ok()?;
+        // a commodity with a declared format prints with digit grouping
+        let d: rust_decimal::Decimal = v.replace(',', "").parse().ok()?;
         if !d.is_zero() {
             m.insert(c.to_string(), Q::from_decimal(d));
         }
